@@ -47,6 +47,7 @@ type State struct {
 	epoch string
 	atomicOps []string
 	plainOps []string
+	leftLoop bool // dry-run marker: this state does not flow back to the loop head
 }
 
 func (st *State) clone() *State {
